@@ -17,7 +17,7 @@ from sim import outcome, rng, seams, shrink, workload
 
 ID = "C13"
 MODULE = "checks.c13_factories"
-SIG_CLASSES = ["plain", "name", "kwonly", "varkw", "object", "partial", "builtin"]
+SIG_CLASSES = ["plain", "name", "kwonly", "varkw", "object", "partial", "builtin", "nddefault"]
 FAULTS = ["raise", "type-list", "type-none", "type-scalar", "type-duck", "type-memoryview", "type-npscalar", "shape-extra", "shape-transposed", "shape-broadcast"]
 
 
@@ -165,6 +165,11 @@ def make_factory(sigclass, arr, pos, log, fault=None):
             record((shape,), {"name": name, "extra": extra})
             return produce(shape)
         return functools.partial(g, extra=7), {"name"}
+    if sigclass == "nddefault":
+        def f(shape, init=np.zeros(3)):  # an array-valued default: part of the signature that keys the cache
+            record((shape,), {})
+            return produce(shape)
+        return f, set()
     if sigclass == "builtin":
         return None, set()  # np.ones etc.: handled by the caller
     raise ValueError(sigclass)
@@ -173,6 +178,7 @@ def make_factory(sigclass, arr, pos, log, fault=None):
 def exec_case(case, cfg):
     einx = seams.WORLD.einx
     seams.reset_world(case["seed"])
+    tag = "_" + rng.tag(case["seed"])[:5]
     stats = {"ops": 0, "executed": 0, "rejected": 0, "graph": 0, "skipped_invalid_base": 0, "factory_invocations": 0, "solve_shapes_agree": 0, "solve_shapes_na": 0}
     faults = {"F-cb-raise": 0, "F-cb-type": 0, "F-cb-shape": 0, "F-evict": 0}
     probes = {"cache_hit_with_fresh_factory": 0, "after_graph_true": 0, "after_rejection": 0, "all_args_factories": 0, "varkw_gets_all_three": 0, "builtin_factory": 0, "underdetermined_rejected": 0,
@@ -187,7 +193,7 @@ def exec_case(case, cfg):
     cs = case.get("env", {}).get("cache_size", cfg.get("env", {}).get("cache_size", -1))
     for opi, op in enumerate(case["ops"]):
         stats["ops"] += 1
-        d = json.loads(json.dumps(case["bases"][op["base"]]))
+        d = workload.rename_axes(json.loads(json.dumps(case["bases"][op["base"]])), tag)  # run-unique axis names
         b = op["base"]
         if b not in plain_ok:
             o = outcome.capture(lambda: workload.execute(einx, d, {}))
